@@ -31,6 +31,7 @@ type Profile struct {
 	Steps       int // actions per history
 	Stale       bool // allow scans without cache sync
 	NoNegRates  bool
+	DupTaints    bool  // external taints may add a second taint under the same key (different effect)
 	OwnNodesOnly bool  // pods are bound only to nodes of the group they select (twin runs: keeps groups independent in the environment too)
 	FaultFocus  string // "" = any call; "node-writes" = get/update failures aimed at early calls or single nodes
 }
@@ -475,7 +476,8 @@ func (w *World) DrawAction(rt *rapid.T, p *Profile) (Action, string) {
 				val = fmt.Sprintf(" %d", now-100)
 			}
 			eff := rapid.SampledFrom([]string{"NoSchedule", "NoExecute", "PreferNoSchedule"}).Draw(rt, "effect")
-			return Action{Op: "taint", Node: n, Key: key, Val: val, Effect: eff}, "taintExt/" + map[bool]string{true: "force", false: class}[key == ref.ForceTaintKey]
+			keep := p.DupTaints && rapid.IntRange(0, 3).Draw(rt, "keepExisting") == 0
+			return Action{Op: "taint", Node: n, Key: key, Val: val, Effect: eff, Flag: keep}, "taintExt/" + map[bool]string{true: "force", false: class}[key == ref.ForceTaintKey]
 		}
 	case "foreignTaint":
 		if n, ok := needNode(); ok {
@@ -528,6 +530,16 @@ func (w *World) DrawAction(rt *rapid.T, p *Profile) (Action, string) {
 			return Action{Op: "drainAndForce", Group: g, Names: rapid.Permutation(names).Draw(rt, "nodes")[:k]}, "drainAndForce"
 		}
 	case "fault":
+		if p.FaultFocus == "cloud" && rapid.IntRange(0, 4).Draw(rt, "focused") > 0 {
+			// a refresh failure (first DescribeAutoScalingGroups of the scan: sleep, rebuild), a refused
+			// termination, or a failing cloud increase
+			kind := rapid.SampledFrom([]string{sim.ADescribeASG, sim.ATerminateInASG, sim.ATerminateInASG, sim.ASetDesired, sim.ACreateFleet, sim.AAttach, sim.ADescribeInst}).Draw(rt, "kind")
+			nth := 0
+			if kind == sim.ATerminateInASG || kind == sim.AAttach {
+				nth = rapid.IntRange(0, 2).Draw(rt, "nth")
+			}
+			return Action{Op: "fault", Faults: []sim.Fault{{Kind: kind, Nth: nth}}}, "fault/cloud"
+		}
 		if p.FaultFocus == "node-writes" && rapid.IntRange(0, 3).Draw(rt, "focused") > 0 {
 			f := sim.Fault{Kind: rapid.SampledFrom([]string{sim.KGet, sim.KUpdate, sim.KGet, sim.KUpdate, sim.ATerminateInASG, sim.KDelete}).Draw(rt, "kind"), Nth: rapid.IntRange(0, 3).Draw(rt, "nth")}
 			if len(nodes) > 0 && rapid.Bool().Draw(rt, "byNode") {
